@@ -108,6 +108,11 @@ def name_pool(rng, kind):
            ('quote', 'CUSTOM_A"B'), ('json-escape2', 'CUSTOM_\\u005f'),
            ('percent', 'CUSTOM_%41'), ('tab', 'CUSTOM_A\tB'),
            ('slash', 'CUSTOM_A/B'), ('nul', 'CUSTOM_A\x00B'),
+           # what \d, \w and str.isupper()/isalnum() take for digits/letters
+           ('unicode-digit', 'CUSTOM_N\u0663'),
+           ('fullwidth-digit', 'CUSTOM_\uff11'),
+           ('fullwidth-letter', 'CUSTOM_\uff21'),
+           ('superscript', 'CUSTOM_N\u00b2'), ('roman', 'CUSTOM_\u2167'),
            ('standard', 'HW_CPU_X86_AVX' if kind == 'trait' else 'VCPU'),
            ('standard2', 'COMPUTE_NODE' if kind == 'trait' else 'DISK_GB')]
     if rng.random() < 0.65:
